@@ -725,9 +725,10 @@ class Gen:
         raise AssertionError(s)
 
     def obj(self):
-        # identities 1..6 with fixed states so that an identity always denotes one object state
+        # identities 1..6 with fixed states so that an identity always denotes one object state;
+        # 1 and 3, 4 and 6 are equal but distinct objects
         i = self.r.randrange(1, 7)
-        return {"k": "obj", "id": i, "x": i % 2, "y": i % 3}
+        return {"k": "obj", "id": i, "x": i % 2, "y": i // 4}
 
     # ---- expressions
     def leaf(self, s):
